@@ -403,7 +403,7 @@ U("dfcc_modular_cfg_num_twin", harness="harness/dfcc.c", entry="h_dfcc_num", fun
   label="bounded(quantifier-free twin of dfcc_modular_cfg_num: option arrays of at most 3 entries; SAT back end, yields counterexamples)", props=["C16", "C01", "C02"], cost=5)
 
 # ------------------------------------------------------------------ per-property text for MANIFEST / evidence
-HOOK_COMMITS = ["b37b503", "1902c5d"]
+HOOK_COMMITS = ["b37b503", "1902c5d", "f69ef3d", "c82b62b", "1c0fce9"]
 NOT_APPLICABLE = {}
 STEP_NOTE = ("The parser's token loop is covered for token sequences of every length by the loop-invariant rule applied by hand "
              "(entry hook CFG_VERIF_PI_ENTRY; base + step units); soundness of that rule rests on the hook handing over every loop-carried local "
